@@ -11,6 +11,8 @@ usage: seedcheck.py <property id> <n> <demo-dest-relative-to-repo> <go test pack
 """
 import json, os, shutil, subprocess, sys, time
 V = os.path.dirname(os.path.dirname(os.path.abspath(__file__)))
+ROOT = os.environ.get("SEED_ROOT", "/tmp/seed")      # where the adversary sub-agents delivered
+OFFSET = int(os.environ.get("SEED_OFFSET", "0"))     # second wave: change<n> is kept as <id>-<n+OFFSET>
 ENV = dict(os.environ, GOFLAGS="-mod=mod", GOPROXY="off", GOSUMDB="off", GOTOOLCHAIN="local")
 
 def sh(cmd, cwd=None, env=None, timeout=3600):
@@ -20,12 +22,12 @@ def sh(cmd, cwd=None, env=None, timeout=3600):
 def infer(pid, n):
     """package directory, destination file and -run regex from the demonstration file itself"""
     import re
-    demo = "/tmp/seed/%s/out/demo%s_test.go" % (pid, n)
+    demo = "%s/%s/out/demo%s_test.go" % (ROOT, pid, n)
     src = open(demo).read()
     pkg = re.search(r"^package (\w+)", src, re.M).group(1)
     pkg = pkg[:-5] if pkg.endswith("_test") else pkg
     tests = re.findall(r"^func (Test\w+)\(", src, re.M)
-    return "%s/zz_seed_%s_%s_test.go" % (pkg, pid.lower(), n), pkg, "^(%s)$" % "|".join(tests)
+    return "%s/zz_seed_%s_%d_test.go" % (pkg, pid.lower(), int(n) + OFFSET), pkg, "^(%s)$" % "|".join(tests)
 
 def affected(diff):
     import re
@@ -47,11 +49,11 @@ def main():
     checks = [pid]
     if "--checks" in sys.argv:
         checks = sys.argv[sys.argv.index("--checks") + 1].split(",")
-    src = "/tmp/seed/%s/out" % pid
+    src = "%s/%s/out" % (ROOT, pid)
     diff = os.path.join(src, "change%s.diff" % n)
     demo = os.path.join(src, "demo%s_test.go" % n)
     A, B = "/tmp/seedA-%s-%s" % (pid, n), "/tmp/seedB-%s-%s" % (pid, n)
-    meta = {"property": pid, "change": n, "ran": []}
+    meta = {"property": pid, "change": str(int(n) + OFFSET), "ran": []}
     try:
         for d in (A, B):
             shutil.rmtree(d, ignore_errors=True)
@@ -80,14 +82,14 @@ def main():
         res = {}
         for c in checks:
             t0 = time.time()
-            rc, out = sh("python3 tools/vcheck.py %s --tier %s" % (c, tier), cwd=V, env=dict(os.environ, VERIF_REPO=B), timeout=7200)
+            rc, out = sh("python3 tools/vcheck.py %s --tier %s" % (c, tier), cwd=V, env=dict(os.environ, VERIF_REPO=B, VERIF_EVIDENCE_DIR="/dev/shm/seed_evidence"), timeout=7200)
             res[c] = rc
             tail = "\n".join([l for l in out.splitlines() if "VIOLATION" in l or "INFRA" in l or "done:" in l or "KNOWN" in l][-6:])
             meta["ran"].append("VERIF_REPO=<repo+change> python3 tools/vcheck.py %s --tier %s -> exit %d (%.0fs)" % (c, tier, rc, time.time() - t0))
             print("check %s on changed tree: exit %d\n%s" % (c, rc, tail[:1500]))
         meta["check_exit"] = res
         meta["detected"] = res.get(pid) == 1
-        out_dir = os.path.join(V, "seeded", "%s-%s" % (pid, n))
+        out_dir = os.path.join(V, "seeded", "%s-%d" % (pid, int(n) + OFFSET))
         os.makedirs(out_dir, exist_ok=True)
         shutil.copy(diff, os.path.join(out_dir, "patch.diff"))
         if os.path.exists(demo):
